@@ -201,6 +201,12 @@ func gallinaAll() string {
 	b.WriteString("(** every .proto file under proto/irismod; those declaring [option go_package] (the rule of\n    scripts/protocgen.sh for generating the gogoproto family) *)\n")
 	b.WriteString("Definition source_files : list string := " + coqList(all, ";") + ".\n")
 	b.WriteString("Definition gogo_scope : list string := " + coqList(scoped, ";") + ".\n\n")
+	var agg []string
+	for _, n := range aggregateOpts() {
+		agg = append(agg, fmt.Sprintf("(%s, %s)", coqStr(n[0]), n[1]))
+	}
+	b.WriteString("(** option numbers whose value is a message (google.api.http, cosmos.app.v1alpha1.module, ...): the\n    .proto text is compared with the descriptors on their presence only *)\n")
+	b.WriteString("Definition aggregate_opts : list (string * N) := " + coqList(agg, "; ") + ".\n\n")
 	rows := sourceRows(srcs)
 	b.WriteString("Definition source_rows : list srow := " + coqList(mapStr(rows, func(s string) string { return "\n  " + s }), ";") + ".\n")
 	return b.String()
